@@ -36,7 +36,8 @@ NextMadeGrew == /\ pos + 2 <= Len(Rec) /\ Rec[pos + 2].ev = "made"
                 /\ SumTo(Rec[pos + 2].made, Len(Rec[pos + 2].made)) >= SumTo(obsMade, MaxCalls) + Len(sockets)
 TConn ==
   /\ Adv /\ R.ev = "conn" /\ ConnObs(R.s, R.by, dead = 1 /\ (nw = 1 \/ NextMadeGrew)) /\ UNCHANGED <<obsMade, obsPhase>>
-TEnd == Adv /\ R.ev = "end" /\ UNCHANGED <<vars, obsMade, obsPhase>>
+\* "end" of a run; "survived": a service call panicked but the worker's services were not destroyed - no worker died
+TEnd == Adv /\ R.ev \in {"end", "survived"} /\ UNCHANGED <<vars, obsMade, obsPhase>>
 TFail == Adv /\ R.ev = "fail" /\ FailReady(R.c) /\ UNCHANGED <<obsMade, obsPhase>>
 TDie == Adv /\ R.ev = "die" /\ Die /\ UNCHANGED <<obsMade, obsPhase>>
 TMade == Adv /\ R.ev = "made" /\ obsMade' = Pad(R.made) /\ UNCHANGED <<vars, obsPhase>>
